@@ -107,7 +107,11 @@ def gen_case(r, with_extend):
             continue
         elif kind == "chain":
             if not has_leaf(cur): continue
-            ts.append(("chain", [("identity",), denorm(cur)]))
+            # inner chains of 2-3 members that do not commute (two different affine maps), sometimes nested one level deeper: the inverse must undo the
+            # members of an INNER chain last-to-first as well
+            inner = [denorm(cur) if r.random() < 0.8 else ("identity",) for _ in range(r.choice([2, 2, 3]))]
+            if r.random() < 0.3: inner = [("chain", inner), denorm(cur)]
+            ts.append(("chain", inner))
         elif kind == "extend":
             # base = cur grown: every None leaf may become a subtree, so that cur is a prefix of base
             def grow(x):
